@@ -1,7 +1,11 @@
 """C01 Readers decode every supported format to the faces the source describes"""
 PROPERTY = "C01"
 LEVEL = "proof"
-FUNCTIONS = []
+FUNCTIONS = ['uxarray.io._mpas._replace_padding',
+    'uxarray.io._mpas._replace_zeros',
+    'uxarray.io._mpas._to_zero_index',
+    'uxarray.grid.connectivity._replace_fill_values',
+    'uxarray.io._topology._process_connectivity']
 STANDINS = ["readers"]
 ASSUMPTIONS = []
 EXPLANATION = ""
